@@ -67,6 +67,11 @@ def table_case(ops, meta, entries, par=0):
         cands.add((u, ""))
         cands.add(("", p))
         cands.add((u, p + "x"))
+        # long values are compared whole (a prefix of 64 bytes, one SHA-256 block, is another string)
+        if len(u) > 64:
+            cands.add((u[:64], p))
+        if len(p) > 64:
+            cands.add((u, p[:64]))
         # different strings with the same CRC-32 (whatever short-cut the store takes, it compares full digests)
         if p in CRC_TWINS:
             cands.add((u, CRC_TWINS[p]))
@@ -98,7 +103,8 @@ def add_e2e_suite(c, samples):
         n = rng.randint(1, 5)
         users = rng.sample(USERS, n)
         tables.append(("file", [(u, "pw" + u, rng.choice([None, "", "m1", "tenant" + u[0]])) for u in users]))
-    tables += [("file", [("eve", "plumless", "m1"), ("plumless", "pw1", None)]), ("static", ("admin", "plumless")), ("static", ("admin", "secret")), ("static", ("", "b")), ("static", ("", "")), ("static", ("a", ""))]
+    tables += [("file", [("eve", "plumless", "m1"), ("plumless", "pw1", None)]), ("static", ("admin", "plumless")),
+               ("static", ("a" * 70, "s" * 70)), ("file", [("u" * 70, "pw1", "m1")]), ("static", ("admin", "secret")), ("static", ("", "b")), ("static", ("", "")), ("static", ("a", ""))]
     for kind, tab in tables:
         ops.append("reset 1")
         if kind == "file":
@@ -115,6 +121,8 @@ def add_e2e_suite(c, samples):
             for cut in {0, 1, len(u) + 1 if len(u) + 1 <= len(cat) else 0, max(0, len(u) - 1), len(cat)}:
                 cands.append((cat[:cut], cat[cut:]))
         cands += [("mallory", "pw1"), ("", "")]
+        longs = [(u[:64], p) for (u, p, m) in entries if len(u) > 64] + [(u, p[:64]) for (u, p, m) in entries if len(p) > 64]
+        cands = cands[:2] + longs + cands[2:]
         twins = [(CRC_TWINS.get(u, u), CRC_TWINS.get(p, p)) for (u, p, m) in entries if u in CRC_TWINS or p in CRC_TWINS]
         cands = cands[:2] + twins + cands[2:]
         if len(cands) > 14:
@@ -179,7 +187,8 @@ def main(tier=None):
         table_case(ops, meta, entries)
         cases += 1
     table_case(ops, meta, [("eve", "plumless", "m1"), ("plumless", "pw1", None), ("bob", "buckeroo", "")])
-    cases += 1
+    table_case(ops, meta, [("u" * 70, "pw1", "m1"), ("bob", "p" * 65, None), ("x" * 64, "y" * 64, "")])
+    cases += 2
     # the 20 set-up workers share the store: concurrent logins get the answers sequential logins get
     for _ in range(3 if c.tier == "quick" else 30):
         us = rng.sample(USERS, rng.randint(2, 6))
@@ -197,10 +206,11 @@ def main(tier=None):
     samples.append({"suite": "file-store-all-orders", "ops": [o[:120] for o in ops[:4]]})
     # static store
     ops, meta = [], {}
-    for cu, cp in [("admin", "secret"), ("", ""), ("a", ""), ("", "b"), ("x", "x")]:
+    L70, L64 = "k" * 70, "k" * 64
+    for cu, cp in [("admin", "secret"), ("", ""), ("a", ""), ("", "b"), ("x", "x"), (L70, "secret"), ("admin", L70)]:
         ops.append(f"static {cu or '_'} {cp or '_'}")
-        for u in ["admin", "secret", "", "a", "b", "x", "Admin"]:
-            for p in ["admin", "secret", "", "a", "b", "x"]:
+        for u in ["admin", "secret", "", "a", "b", "x", "Admin", L70, L64]:
+            for p in ["admin", "secret", "", "a", "b", "x", L70, L64]:
                 ops.append(f"sauth {u or '_'} {p or '_'}")
                 meta[len(ops) - 1] = {"_default"} if (u == cu and p == cp) else None
     c.run_suite(Suite("static-store", "auth", ops, mk_monitor(meta), {"cases": len(meta), "nontrivial": len(meta)}, resets=("static",), exhaustive=True))
